@@ -898,13 +898,21 @@ def part2(rep, tier, seed, cmenu):
 
 def run(rep, tier, seed):
   mods()
+  import gc
   import time
   t0 = time.time()
   _dbg("start")
-  part1(rep, tier, seed)
-  _dbg("part1 done")
-  t1 = time.time()
-  part2(rep, tier, seed, CMENU)
+  # Nothing here builds reference cycles (conditions, bindings, variables, states and recipes are trees), and
+  # the cyclic collector's full passes over ~10^7 live objects dominate the run otherwise; forked workers
+  # inherit the setting, which also keeps them from touching (copying) the parent's pages.
+  gc.disable()
+  try:
+    part1(rep, tier, seed)
+    _dbg("part1 done")
+    t1 = time.time()
+    part2(rep, tier, seed, CMENU)
+  finally:
+    gc.enable()
   _dbg("part2 returned")
   rep.cov["phase_wall_s"] = {"part1": round(t1 - t0, 1), "part2": round(time.time() - t1, 1),
                              "part2_levels": _G.pop("t_levels", None), "part2_frontier": _G.pop("t_frontier", None)}
